@@ -11,6 +11,9 @@
 //! Bound: 12 hand-written + 60 (deep: 1500) histories of 4 law instances over operand terms of depth <= 1 with 3 slot
 //! names (all subterms, a slot-permuted copy of each side and parents of the sides that re-use one of their slots are
 //! inserted before any union and kept as handles), unions in fixed-seed order.
+//! Rewriting in the model: 80 (deep: 1500) terms of depth <= 3 over the ring operators and beta-redexes (app (lam $x body) arg)
+//! (body may use $x, outer names, and a name that also occurs in arg), a fixed-seed subset of 8 ring-law rules and beta
+//! reduction by native substitution, <= 3 rounds: all kept non-function subterms reported equal must evaluate equally.
 //! Second oracle (binders): 10 hand-written + 150 (deep: 3000) e-graphs of terms over lam / letrev (binder after a child) /
 //! pin (binder after a slot) / nest (two binders) / case (two sibling binders) with the names $0 $1 $2 $x (depth <= 3,
 //! shadowing, a bound name that is also free, name-swapped copies) with NO union: two inserted terms must be equal exactly if they are
@@ -43,6 +46,16 @@ struct Rng(u64);
 impl Rng { fn next(&mut self, n: u64) -> u64 { self.0 ^= self.0 << 13; self.0 ^= self.0 >> 7; self.0 ^= self.0 << 17; self.0 % n } }
 
 fn eval(re: &RecExpr<ML>, env: &dyn Fn(Slot) -> u64) -> u64 {
+    // (app (lam $x body) arg): the value of body with $x bound to the value of arg (only this shape of application is generated)
+    if let ML::App(..) = &re.node {
+        if let ML::Lam(b) = &re.children[0].node {
+            let arg = eval(&re.children[1], env);
+            let x = b.slot;
+            let env2 = move |s: Slot| if s == x { arg } else { env(s) };
+            return eval(&re.children[0].children[0], &env2);
+        }
+        unreachable!("the harness only generates applications of a literal lambda");
+    }
     let c: Vec<u64> = re.children.iter().map(|x| eval(x, env)).collect();
     match &re.node {
         ML::Var(s) => env(*s) % P,
@@ -258,6 +271,49 @@ pub fn run(only: &[String]) -> Vec<String> {
             let desc = format!("history: laws {:?}, also inserted {:?}, unions in order {:?}", pairs, extra, order);
             verif_case(desc.clone());
             if let Err(e) = run_history(&pairs, &extra, &order, &desc) { if n < 3 { n += 1; let (c, m) = e.split_once(' ').unwrap(); fails.push(format!("FAIL EGraph::eq {} {}", c, m)); } }
+        }
+    }
+    // rewriting with rules that hold in the model (ring laws, beta reduction by native substitution): everything the
+    // e-graph reports equal afterwards must evaluate equally
+    {
+        let rules: [(&str, &str, &str); 9] = [
+            ("add-comm", "(add ?a ?b)", "(add ?b ?a)"), ("mul-comm", "(mul ?a ?b)", "(mul ?b ?a)"), ("add-assoc", "(add ?a (add ?b ?c))", "(add (add ?a ?b) ?c)"),
+            ("distr", "(mul ?a (add ?b ?c))", "(add (mul ?a ?b) (mul ?a ?c))"), ("mul-zero", "(mul ?a zero)", "zero"), ("add-zero", "(add ?a zero)", "?a"),
+            ("sub-self", "(sub ?a ?a)", "zero"), ("mul-one", "(mul ?a one)", "?a"), ("beta", "(app (lam $1 ?b) ?t)", "?b[(var $1) := ?t]")];
+        fn arith(r: &mut Rng, depth: u32, names: &[&str]) -> String {
+            let v = |r: &mut Rng| match r.next(6) { 0 => "zero".to_string(), 1 => "one".to_string(), k => format!("(var {})", names[(k as usize) % names.len()]) };
+            if depth == 0 { return v(r); }
+            match r.next(6) {
+                0 => format!("(add {} {})", arith(r, depth - 1, names), arith(r, depth - 1, names)),
+                1 => format!("(mul {} {})", arith(r, depth - 1, names), arith(r, depth - 1, names)),
+                2 => format!("(sub {} {})", arith(r, depth - 1, names), arith(r, depth - 1, names)),
+                // a beta-redex: the body may use the bound name, the outer names, and a name that is ALSO the argument's
+                3 | 4 => { let x = ["$1", "$2", "$x"][r.next(3) as usize]; let mut inner: Vec<&str> = names.to_vec(); inner.push(x); format!("(app (lam {} {}) {})", x, arith(r, depth - 1, &inner), arith(r, depth - 1, names)) }
+                _ => v(r),
+            }
+        }
+        let rseeds: u64 = if deep { verif_scale(1500) } else { 80 };
+        for seed in 1..=rseeds {
+            let mut r = Rng(seed.wrapping_mul(0xA0761D6478BD642F).wrapping_add(13));
+            let t = arith(&mut r, 3, &["$1", "$2", "$y"]);
+            let mask = 1 + r.next((1 << 9) - 1);
+            let used: Vec<&str> = (0..9).filter(|i| mask & (1 << i) != 0).map(|i| rules[i].0).collect();
+            let rws: Vec<Rewrite<ML, ()>> = (0..9).filter(|i| mask & (1 << i) != 0).map(|i| Rewrite::new(rules[i].0, rules[i].1, rules[i].2)).collect();
+            let desc = format!("rewriting (seed {}): term {} rules {:?}", seed, t, used);
+            verif_case(desc.clone());
+            let mut eg = MG::default();
+            let mut kept: Vec<RecExpr<ML>> = Vec::new();
+            subterms(&RecExpr::<ML>::parse(&t).unwrap(), &mut kept);
+            // function-valued subterms (a literal lambda) have no value in the model: only the others are compared
+            let handles_all: Vec<AppliedId> = kept.iter().map(|s| eg.add_expr(s.clone())).collect();
+            let idx: Vec<usize> = (0..kept.len()).filter(|i| !matches!(kept[*i].node, ML::Lam(..))).collect();
+            let k2: Vec<RecExpr<ML>> = idx.iter().map(|i| kept[*i].clone()).collect();
+            let h2: Vec<AppliedId> = idx.iter().map(|i| handles_all[*i].clone()).collect();
+            for round in 0..3 {
+                if eg.total_number_of_nodes() > 250 { break; }
+                apply_rewrites(&mut eg, &rws);
+                if let Err(e) = check_model(&eg, &k2, &h2, &format!("{} after round {}", desc, round)) { if n < 3 { n += 1; let (c, m) = e.split_once(' ').unwrap(); fails.push(format!("FAIL EGraph::eq {} {}", c, m)); } break; }
+            }
         }
     }
     // binders: nothing is united, equality must be alpha-equivalence
